@@ -34,7 +34,8 @@ SOURCES = ['setigen', 'foreign']
 def required(tier):
     b = {'source:setigen': 30, 'source:foreign': 30, 'bits:8': 30, 'bits:4': 20, 'npol:1': 20, 'npol:2': 20, 'array': 10,
          'directio:on': 20, 'directio:off': 20, 'digitize:on': 30, 'digitize:off': 20, 'multi-file-input': 20, 'length:omitted': 10,
-         'length:shorter': 10, 'length:longer': 10, 'aligned-header': 3, 'subblocks>=2': 40}
+         'length:shorter': 10, 'length:longer': 10, 'aligned-header': 3, 'subblocks>=2': 40,
+         'second-recording-flipped-digitize': 30}
     return {'buckets': b, 'counters': {'decode_blocks_compared': 200, 'gain_calls_observed': 400, 'samples_compared': 50000},
             'checks': 1000, 'nontrivial': 60}
 
@@ -160,141 +161,163 @@ def _run(stg, c, cfg, d, R):
                 rvb.filterbank[a][p].estimate_channelized_stds(factor=300, seed=c['est_seed'] + 7 * a + p)
             cstd[(a, p)] = np.array(rvb.filterbank[a][p].channelized_stds, dtype=float).copy()
     window = np.array(rvb.filterbank[0][0].window, dtype=float)
-    # ---- monitors
-    decoded_log, gain_log = [], []
+    def one_recording(digitize, out_name, tag):
+        # ---- monitors
+        decoded_log, gain_log = [], []
 
-    def post_read(args, kwargs, result, exc, tok):
-        if exc is None:
-            decoded_log.append(np.array(result, copy=True))
+        def post_read(args, kwargs, result, exc, tok):
+            if exc is None:
+                decoded_log.append(np.array(result, copy=True))
 
-    def pre_q(args, kwargs):
-        cs = kwargs.get('custom_stds', args[2] if len(args) > 2 else None)
-        if cs is not None:
-            gain_log.append((id(args[0]), np.array(cs, dtype=float).copy()))
-    attach.wrap(v.RawVoltageBackend, '_read_next_block', post=post_read)
-    attach.wrap(v.ComplexQuantizer, 'quantize', pre=pre_q)
-    nin = len(in_blocks)
-    req = {'omitted': None, 'shorter': max(1, nin - 1), 'equal': nin, 'longer': nin + 2}[c['length']]
-    want_blocks = nin if req is None else min(req, nin)
-    stem_out = os.path.join(d, 'out')
-    args = dict(header_dict={}, digitize=cfg['digitize'], load_template=False, verbose=False)
-    if c['length_mode'] == 'num_blocks':
-        args.update(num_blocks=req, length_mode='num_blocks')
-    else:
-        args.update(obs_length=None if req is None else (req + 0.5) * rvb.time_per_block, length_mode='obs_length')
-    bd = work_raw.Boundary(src)
-    try:
-        with common.quiet():
-            rvb.record(stem_out, **args)
-    finally:
-        bd.detach()
-    attach.restore_all()
-    out_files = sorted(os.path.join(d, f) for f in os.listdir(d) if f.startswith('out.'))
-    try:
-        out_blocks = work_raw.read_blocks(out_files)
-    except guppi.GuppiError as e:
-        R.violate('output-unparseable:' + e.key, msg=str(e))
-        return
-    # ---- framing
-    R.check(len(out_blocks) == want_blocks, 'output-block-count', got=len(out_blocks), want=want_blocks, requested=req, input=nin)
-    if not out_blocks:
-        return
-    hi = {k: guppi.parse_value(x) for k, x in in_blocks[0]['header'].items()}
-    ho = {k: guppi.parse_value(x) for k, x in out_blocks[0]['header'].items()}
-    for k in ('BLOCSIZE', 'NBITS', 'OBSNCHAN'):
-        R.check(ho.get(k) == hi.get(k), 'output-framing:' + k, got=ho.get(k), want=hi.get(k))
-    R.check(ho.get('NPOL') in (hi.get('NPOL'), 2 if hi.get('NPOL') == 4 else hi.get('NPOL')), 'output-framing:NPOL', got=ho.get('NPOL'), want=hi.get('NPOL'))
-    R.check(int(ho.get('NANTS', 1)) == int(hi.get('NANTS', 1)), 'output-framing:NANTS', got=ho.get('NANTS'), want=hi.get('NANTS'))
-    R.check(guppi.directio_of(out_blocks[0]['header']) == guppi.directio_of(in_blocks[0]['header']), 'output-framing:DIRECTIO')
-    # ---- decode monitor
-    R.check(len(decoded_log) == len(out_blocks), 'read-next-block-calls', got=len(decoded_log), want=len(out_blocks))
-    for bi, got in enumerate(decoded_log[:len(in_dec)]):
-        want = in_dec[bi].reshape(obsn, -1)
-        ok = got.shape == want.shape and np.array_equal(got, want)
-        R.count('decode_blocks_compared')
-        R.check(ok, 'input-block-decode' + (':4bit' if cfg['bits'] == 4 else ''), block=bi,
-                nbad=int((got != want).sum()) if got.shape == want.shape else -1)
-    # ---- stationary gain
-    R.count('gain_calls_observed', len(gain_log))
-    first = {}
-    drift = None
-    for qid, cs in gain_log:
-        if qid not in first:
-            first[qid] = cs
-        elif not np.array_equal(first[qid], cs):
-            drift = (first[qid].tolist(), cs.tolist())
-            break
-    R.check(drift is None, 'synthetic-gain-not-stationary' + (':digitize' if cfg['digitize'] else ''), first_and_later=drift,
-            calls=len(gain_log))
-    # ---- R-INJECT
-    delivered = bd.log
-    P, M, nchan, sc, spb = cfg['P'], cfg['M'], cfg['nchan'], cfg['start_chan'], sz['spb']
-    nb = len(out_blocks)
-    sizes_ = [n for n, _ in delivered]
-    rows_per_call = [sizes_[0] // P - M] + [n // P for n in sizes_[1:]]
-    calls_per_block = len(sizes_) // max(nb, 1)
-    if calls_per_block >= 2:
-        R.bucket('subblocks>=2')
-    changed = False
-    dig_std = 32.0 / FW
-    for a in range(cfg['nants']):
-        for p in range(cfg['npol']):
-            if cfg['digitize']:
-                dq = rquant.QuantRef(0, dig_std, 8, 1, 10000)
-                parts, dties = [], 0
-                for n, arr in delivered:
-                    q, pre = dq.quantize(arr[a][p])
-                    dties += int(rquant.tie_mask(pre, 8).sum())
-                    parts.append(q.astype(float))
-                if dties:
-                    R.count('calls_skipped_tie')
-                    continue
-                stream = np.concatenate(parts)
-            else:
-                stream = np.concatenate([np.asarray(arr[a][p]) for _, arr in delivered])
-            X = rpfb.ref_pfb(stream, window, M, P)[:, sc:sc + nchan]
-            custom = cstd[(a, p)] * (dig_std if cfg['digitize'] else 1.0)
-            row = 0
-            for ci, rows in enumerate(rows_per_call):
-                bi = row // spb
-                inp = in_dec[bi][a * nchan:(a + 1) * nchan, :, p]              # (chan, time)
-                R_, I_ = np.real(inp), np.imag(inp)
-                tm = (float(np.mean(R_)), float(np.mean(I_)))
-                ts = (float(np.std(R_)), float(np.std(I_)))
-                t0 = row - bi * spb
-                vv = X[row:row + rows]
-                outq, undecidable = [], False
-                tie_any = np.zeros((rows, nchan), dtype=bool)
-                for comp, part in enumerate((np.real(vv), np.imag(vv))):
-                    q1 = rquant.QuantRef(0.0, ts[comp], cfg['bits'], 1, 10000)
-                    s1, pre1 = q1.quantize(part, custom_std=float(custom[comp]))
-                    if rquant.tie_mask(pre1, cfg['bits']).any():
-                        undecidable = True
-                    ssum = s1 + (R_ if comp == 0 else I_)[:, t0:t0 + rows].T
-                    q2 = rquant.QuantRef(tm[comp], ts[comp], cfg['bits'], 1, 10000)
-                    s2, pre2 = q2.quantize(ssum)
-                    tie_any |= rquant.tie_mask(pre2, cfg['bits'])
-                    outq.append(s2)
-                    if np.any(s1 != 0):
-                        changed = True
-                row += rows
-                if undecidable:
-                    R.count('calls_skipped_tie')
-                    continue
-                want = outq[0] + 1j * outq[1]
-                got = guppi.decode_block(out_blocks[bi]['data'], obsn, cfg['npol'], cfg['bits'])[a * nchan:(a + 1) * nchan, t0:t0 + rows, p].T
-                diff = got != want
-                bad = diff & ~(tie_any & (np.abs(got - want) <= 1.5))
-                R.count('samples_compared', int(want.size))
-                R.count('requantiser_calls_compared')
-                if bad.any():
-                    r_, c_ = np.argwhere(bad)[0]
-                    R.violate('output-sample-mismatch' + (':digitize' if cfg['digitize'] else '') + (':later-call' if ci > 0 else ':first-call'),
-                              antenna=a, pol=p, call=ci, block=bi, row=int(r_), chan=int(c_), got=complex(got[r_, c_]),
-                              want=complex(want[r_, c_]), nbad=int(bad.sum()), of=int(want.size))
-                    return
-                R.check(True, 'output-sample-mismatch')
-    R.mark_nontrivial(R.counters.get('requantiser_calls_compared', 0) >= 2 and changed)
+        def pre_q(args, kwargs):
+            cs = kwargs.get('custom_stds', args[2] if len(args) > 2 else None)
+            if cs is not None:
+                gain_log.append((id(args[0]), np.array(cs, dtype=float).copy()))
+        attach.wrap(v.RawVoltageBackend, '_read_next_block', post=post_read)
+        attach.wrap(v.ComplexQuantizer, 'quantize', pre=pre_q)
+        nin = len(in_blocks)
+        req = {'omitted': None, 'shorter': max(1, nin - 1), 'equal': nin, 'longer': nin + 2}[c['length']]
+        want_blocks = nin if req is None else min(req, nin)
+        stem_out = os.path.join(d, out_name)
+        args = dict(header_dict={}, digitize=digitize, load_template=False, verbose=False)
+        if c['length_mode'] == 'num_blocks':
+            args.update(num_blocks=req, length_mode='num_blocks')
+        else:
+            args.update(obs_length=None if req is None else (req + 0.5) * rvb.time_per_block, length_mode='obs_length')
+        bd = work_raw.Boundary(src)
+        try:
+            with common.quiet():
+                rvb.record(stem_out, **args)
+        finally:
+            bd.detach()
+        attach.restore_all()
+        out_files = sorted(os.path.join(d, f) for f in os.listdir(d) if f.startswith(out_name + '.'))
+        try:
+            out_blocks = work_raw.read_blocks(out_files)
+        except guppi.GuppiError as e:
+            R.violate('output-unparseable:' + e.key, msg=str(e))
+            return
+        # ---- framing
+        R.check(len(out_blocks) == want_blocks, 'output-block-count', got=len(out_blocks), want=want_blocks, requested=req, input=nin)
+        tpb_ = sz['spb'] * cfg['P'] / cfg['sample_rate']
+        R.check(abs(rvb.obs_length - want_blocks * tpb_) <= 1e-12 * max(want_blocks * tpb_, 1e-300)
+                and rvb.total_obs_num_samples == want_blocks * sz['spb'] * cfg['P'], 'length-bookkeeping-ignores-input-clamp',
+                obs_length=rvb.obs_length, want=want_blocks * tpb_, total=int(rvb.total_obs_num_samples), requested=req, input=nin)
+        if out_blocks:
+            sl_ = guppi.parse_value(out_blocks[0]['header'].get('SCANLEN', 'nan'))
+            R.check(isinstance(sl_, (int, float)) and abs(sl_ - want_blocks * tpb_) <= 1e-12 * max(want_blocks * tpb_, 1e-300),
+                    'output-SCANLEN-ignores-input-clamp', got=sl_, want=want_blocks * tpb_)
+        if not out_blocks:
+            return
+        hi = {k: guppi.parse_value(x) for k, x in in_blocks[0]['header'].items()}
+        ho = {k: guppi.parse_value(x) for k, x in out_blocks[0]['header'].items()}
+        for k in ('BLOCSIZE', 'NBITS', 'OBSNCHAN'):
+            R.check(ho.get(k) == hi.get(k), 'output-framing:' + k, got=ho.get(k), want=hi.get(k))
+        R.check(ho.get('NPOL') in (hi.get('NPOL'), 2 if hi.get('NPOL') == 4 else hi.get('NPOL')), 'output-framing:NPOL', got=ho.get('NPOL'), want=hi.get('NPOL'))
+        R.check(int(ho.get('NANTS', 1)) == int(hi.get('NANTS', 1)), 'output-framing:NANTS', got=ho.get('NANTS'), want=hi.get('NANTS'))
+        R.check(guppi.directio_of(out_blocks[0]['header']) == guppi.directio_of(in_blocks[0]['header']), 'output-framing:DIRECTIO')
+        # ---- decode monitor
+        R.check(len(decoded_log) == len(out_blocks), 'read-next-block-calls', got=len(decoded_log), want=len(out_blocks))
+        for bi, got in enumerate(decoded_log[:len(in_dec)]):
+            want = in_dec[bi].reshape(obsn, -1)
+            ok = got.shape == want.shape and np.array_equal(got, want)
+            R.count('decode_blocks_compared')
+            R.check(ok, 'input-block-decode' + (':4bit' if cfg['bits'] == 4 else ''), block=bi,
+                    nbad=int((got != want).sum()) if got.shape == want.shape else -1)
+        # ---- stationary gain
+        R.count('gain_calls_observed', len(gain_log))
+        first = {}
+        drift = None
+        for qid, cs in gain_log:
+            if qid not in first:
+                first[qid] = cs
+            elif not np.array_equal(first[qid], cs):
+                drift = (first[qid].tolist(), cs.tolist())
+                break
+        R.check(drift is None, 'synthetic-gain-not-stationary' + (':digitize' if digitize else ''), first_and_later=drift,
+                calls=len(gain_log))
+        # ... and it is the channelised unit-noise deviation times the digitiser target deviation (1 without digitiser)
+        want_set = [cstd[k_] * ((32.0 / FW) if digitize else 1.0) for k_ in cstd]
+        bad_gain = [cs.tolist() for _, cs in gain_log if not any(np.allclose(cs, w_, rtol=1e-12, atol=0) for w_ in want_set)]
+        R.check(not bad_gain, 'synthetic-gain-wrong-value' + (':' + tag if tag != 'first' else ''), got=bad_gain[:2],
+                want=[w_.tolist() for w_ in want_set][:2], digitize=digitize)
+        # ---- R-INJECT
+        delivered = bd.log
+        P, M, nchan, sc, spb = cfg['P'], cfg['M'], cfg['nchan'], cfg['start_chan'], sz['spb']
+        nb = len(out_blocks)
+        sizes_ = [n for n, _ in delivered]
+        rows_per_call = [sizes_[0] // P - M] + [n // P for n in sizes_[1:]]
+        calls_per_block = len(sizes_) // max(nb, 1)
+        if calls_per_block >= 2:
+            R.bucket('subblocks>=2')
+        changed = False
+        dig_std = 32.0 / FW
+        for a in range(cfg['nants']):
+            for p in range(cfg['npol']):
+                if digitize:
+                    dq = rquant.QuantRef(0, dig_std, 8, 1, 10000)
+                    parts, dties = [], 0
+                    for n, arr in delivered:
+                        q, pre = dq.quantize(arr[a][p])
+                        dties += int(rquant.tie_mask(pre, 8).sum())
+                        parts.append(q.astype(float))
+                    if dties:
+                        R.count('calls_skipped_tie')
+                        continue
+                    stream = np.concatenate(parts)
+                else:
+                    stream = np.concatenate([np.asarray(arr[a][p]) for _, arr in delivered])
+                X = rpfb.ref_pfb(stream, window, M, P)[:, sc:sc + nchan]
+                custom = cstd[(a, p)] * (dig_std if digitize else 1.0)
+                row = 0
+                for ci, rows in enumerate(rows_per_call):
+                    bi = row // spb
+                    inp = in_dec[bi][a * nchan:(a + 1) * nchan, :, p]              # (chan, time)
+                    R_, I_ = np.real(inp), np.imag(inp)
+                    tm = (float(np.mean(R_)), float(np.mean(I_)))
+                    ts = (float(np.std(R_)), float(np.std(I_)))
+                    t0 = row - bi * spb
+                    vv = X[row:row + rows]
+                    outq, undecidable = [], False
+                    tie_any = np.zeros((rows, nchan), dtype=bool)
+                    for comp, part in enumerate((np.real(vv), np.imag(vv))):
+                        q1 = rquant.QuantRef(0.0, ts[comp], cfg['bits'], 1, 10000)
+                        s1, pre1 = q1.quantize(part, custom_std=float(custom[comp]))
+                        if rquant.tie_mask(pre1, cfg['bits']).any():
+                            undecidable = True
+                        ssum = s1 + (R_ if comp == 0 else I_)[:, t0:t0 + rows].T
+                        q2 = rquant.QuantRef(tm[comp], ts[comp], cfg['bits'], 1, 10000)
+                        s2, pre2 = q2.quantize(ssum)
+                        tie_any |= rquant.tie_mask(pre2, cfg['bits'])
+                        outq.append(s2)
+                        if np.any(s1 != 0):
+                            changed = True
+                    row += rows
+                    if undecidable:
+                        R.count('calls_skipped_tie')
+                        continue
+                    want = outq[0] + 1j * outq[1]
+                    got = guppi.decode_block(out_blocks[bi]['data'], obsn, cfg['npol'], cfg['bits'])[a * nchan:(a + 1) * nchan, t0:t0 + rows, p].T
+                    diff = got != want
+                    bad = diff & ~(tie_any & (np.abs(got - want) <= 1.5))
+                    R.count('samples_compared', int(want.size))
+                    R.count('requantiser_calls_compared')
+                    if bad.any():
+                        r_, c_ = np.argwhere(bad)[0]
+                        R.violate('output-sample-mismatch' + (':digitize' if digitize else '') + (':later-call' if ci > 0 else ':first-call'),
+                                  antenna=a, pol=p, call=ci, block=bi, row=int(r_), chan=int(c_), got=complex(got[r_, c_]),
+                                  want=complex(want[r_, c_]), nbad=int(bad.sum()), of=int(want.size))
+                        return
+                    R.check(True, 'output-sample-mismatch')
+        R.mark_nontrivial(R.counters.get('requantiser_calls_compared', 0) >= 2 and changed)
+        return True
+
+
+    ok = one_recording(cfg['digitize'], 'out', 'first')
+    if c['_idx'] % 3 == 0:
+        # history: a second recording on the SAME backend with the digitiser flag flipped (the synthetic gain must follow the flag)
+        R.bucket('second-recording-flipped-digitize')
+        one_recording(not cfg['digitize'], 'out2', 'second-flipped-digitize')
 
 
 MANIFEST = {
